@@ -85,9 +85,17 @@ def spec_to_code(ctx, consts, n, depth, replay_fn, monitor, mon_cfg, label="beha
         same += diff is None
         traces.append({"cfg": mon_cfg, "ev": monpass.add_adv(ev), "sched": sched, "diag": {"from": "tlc -simulate"}, "diff": diff})
     bad, ms = judge(ctx, monitor, traces, label, lambda tr: {"sched": tr["sched"], "trace": tr["ev"], "from": "tlc -simulate"})
+    explained = 0
     if same < len(traces):
-        first = next(t for t in traces if t["diff"] is not None)
-        ctx.note("spec-drift property=%s spec-generated schedules: %d of %d real runs differ from the behaviour of the specification "
-                 "(first: %s)" % (ctx.prop, len(traces) - same, len(traces), str(first["diff"])[:300]))
+        # the real run took another branch than the simulated behaviour (order of simultaneously due timers, hash orders):
+        # it only has to be SOME behaviour of the specification -- decided by trace validation
+        differ = [t for t in traces if t["diff"] is not None]
+        conf, _ = conform.run("SDTrace", {k: consts[k] for k in ("Match", "Cfg", "Sw")}, differ)
+        explained = sum(1 for c in conf if c[0])
+        left = [t for t, c in zip(differ, conf) if not c[0]]
+        if left:
+            ctx.note("spec-drift property=%s spec-generated schedules: %d of %d real runs are not behaviours of the specification "
+                     "(first: %s)" % (ctx.prop, len(left), len(traces), str(left[0]["diff"])[:300]))
     return {"spec_behaviours": len(hists), "spec_schedules_replayed": len(traces), "replays_equal_to_spec_behaviour": same,
+            "replays_on_another_branch_of_the_spec": explained,
             "replay_positions_missed": missed, "spec_schedule_monitor_failures": bad}
